@@ -26,14 +26,20 @@ Theorem C18_invalid : forall hdr compile fmt c s g,
 Proof. exact invalid_fails. Qed.
 Print Assumptions C18_invalid.
 
-(* a destination already produced from the same grammar, prefix and library is left untouched *)
-Theorem C18_idempotent : forall hdr compile fmt c s s1,
-  format c = false -> run hdr compile fmt c s = (ROk, s1) -> run hdr compile fmt c s1 = (ROk, s1).
-Proof. exact idempotent. Qed.
+(* The header has a fixed width (version, build time and the two checksums are printed with fixed
+   widths) and rustfmt leaves the leading comment lines alone: then a destination already produced
+   from the same grammar, prefix and library is left untouched - with or without formatting, and also
+   when formatting was switched on or off in between. *)
+Theorem C18_idempotent : forall hdr compile fmt,
+  (forall g p g' p', length (hdr g p) = length (hdr g' p')) ->
+  (forall c g code, firstn (length (source_header hdr c g)) (fmt (content hdr c g code)) = source_header hdr c g) ->
+  forall c c' s s1, prefix c' = prefix c ->
+    run hdr compile fmt c s = (ROk, s1) -> run hdr compile fmt c' s1 = (ROk, s1).
+Proof. intros hdr compile fmt Hlen Hfmt c c' s s1. exact (idempotent_other_format hdr compile fmt Hlen Hfmt c c' s s1). Qed.
 Print Assumptions C18_idempotent.
 
 (* after a successful run: either the compilation of the grammar as it is now was
-   written, or the destination already started with the expected header and prefix *)
+   written, or the destination already started with the expected header *)
 Theorem C18_ok : forall hdr compile fmt c s s1,
   run hdr compile fmt c s = (ROk, s1) ->
   (fresh hdr compile fmt c s1 /\ writes s1 = S (writes s)) \/
@@ -41,24 +47,47 @@ Theorem C18_ok : forall hdr compile fmt c s s1,
 Proof. exact ok_fresh_or_shortcut. Qed.
 Print Assumptions C18_ok.
 
-(* freshness, provided no earlier destination can pass the header+prefix test for
-   another (grammar, prefix) *)
-Theorem C18_fresh_partial : forall hdr compile fmt c s s1,
-  run hdr compile fmt c s = (ROk, s1) ->
-  (forall g d code, gfile s = Some g -> dest s = Some d -> compile g = Some code ->
-                    up_to_date hdr c g d = true -> d = output hdr fmt c g code) ->
-  fresh hdr compile fmt c s1.
-Proof. exact fresh_if_no_confusion. Qed.
-Print Assumptions C18_fresh_partial.
+(* Freshness over histories.  If moreover the header identifies grammar text and prefix (no
+   CRC-32 collision among the texts in play - the one way left to fool the test, recorded as a
+   known finding and shown below), then whatever sequence of grammar edits, prefix changes,
+   formatting changes, destination deletions and earlier runs (failed or not) preceded it, after a
+   successful run the destination is the compilation of the grammar file as it is now: header,
+   prefix, code. *)
+Theorem C18_fresh : forall hdr compile fmt,
+  (forall g p g' p', length (hdr g p) = length (hdr g' p')) ->
+  (forall c g code, firstn (length (source_header hdr c g)) (fmt (content hdr c g code)) = source_header hdr c g) ->
+  (forall g p g' p', hdr g p = hdr g' p' -> g = g' /\ p = p') ->
+  forall ops c0 g0 c s s',
+    exec hdr compile fmt ops (c0, {| gfile := g0; dest := None; writes := 0 |}) = (c, s) ->
+    run hdr compile fmt c s = (ROk, s') -> fresh hdr compile fmt c s'.
+Proof.
+  intros hdr compile fmt Hlen Hfmt Hinj ops c0 g0 c s s' E R.
+  exact (fresh_after_history hdr compile fmt Hlen Hfmt Hinj ops c0 {| gfile := g0; dest := None; writes := 0 |} c s s' I E R).
+Qed.
+Print Assumptions C18_fresh.
 
-(* the unconditional statement is false (KNOWN FINDING): changing the prefix to a
-   proper prefix of the old one leaves the old destination in place *)
-Theorem C18_fresh_refuted : forall hdr compile fmt g code p q,
+(* without that hypothesis (KNOWN FINDING c18:crc-collision): two texts with the same header leave
+   the compilation of the old text in place *)
+Theorem C18_fresh_refuted_by_collision : forall hdr compile fmt g g' p code,
+  hdr g p = hdr g' p -> compile g = Some code ->
+  let c := {| prefix := p; format := false |} in
+  let s0 := {| gfile := Some g; dest := None; writes := 0 |} in
+  let s2 := snd (exec hdr compile fmt [ORun; OEdit (Some g'); ORun] (c, s0)) in
+  gfile s2 = Some g' /\ dest s2 = Some (content hdr c g code) /\ writes s2 = 1.
+Proof. exact stale_after_collision. Qed.
+Print Assumptions C18_fresh_refuted_by_collision.
+
+(* the algorithm before the repair (header without the prefix checksum, up-to-date test on header
+   + prefix text): changing the prefix to a proper prefix of the old one left the old destination
+   in place - for every header function *)
+Theorem C18_refuted_before_fix : forall compile hdr_old g code p q,
   compile g = Some code -> q <> [] ->
   let c0 := {| prefix := p ++ q; format := false |} in
   let c1 := {| prefix := p; format := false |} in
   let s0 := {| gfile := Some g; dest := None; writes := 0 |} in
-  let '(c, s) := exec hdr compile fmt [ORun; OPrefix p; ORun] (c0, s0) in
-  c = c1 /\ dest s = Some (output hdr fmt c0 g code) /\ writes s = 1 /\ ~ fresh hdr compile fmt c1 s.
-Proof. exact stale_after_prefix_shrink. Qed.
-Print Assumptions C18_fresh_refuted.
+  let s1 := {| gfile := Some g; dest := Some (output_old hdr_old c0 g code); writes := 1 |} in
+  run_old compile hdr_old c0 s0 = (ROk, s1) /\
+  run_old compile hdr_old c1 s1 = (ROk, s1) /\
+  output_old hdr_old c0 g code <> output_old hdr_old c1 g code.
+Proof. exact old_stale_after_prefix_shrink. Qed.
+Print Assumptions C18_refuted_before_fix.
